@@ -64,8 +64,8 @@ var checks = map[string]*Check{
 	},
 	"C05": {
 		Legs:        []Leg{{World: "C05", Weight: 1}},
-		Probes:      []string{"body_larger_than_buffers", "lockstep_multi_chunk"},
-		Rule:        "Real agent vs fake proxy that decodes the upload incrementally; lock-step backend flushes chunk i+1 only after the proxy saw chunk i; 1..12 (thorough ..200) chunks of 1 B..70 KiB (thorough ..2 MiB), pauses, SimNet buffer sizes 1..256 KiB, latency 0..200 ms. Each chunk must be visible within 2 s + network time.",
+		Probes:      []string{"body_larger_than_buffers", "lockstep_multi_chunk", "through_wrapped_handler_chain", "declared_length_multi_chunk"},
+		Rule:        "Real agent vs fake proxy that decodes the upload incrementally; lock-step backend flushes chunk i+1 only after the proxy saw chunk i; 1..12 (thorough ..200) chunks of 1 B..70 KiB (thorough ..2 MiB), pauses, agent handler chain drawn per run (sessions / banner / shim wrappers on or off), backend framing chunked or with a declared Content-Length, SimNet buffer sizes 1..256 KiB, latency 0..200 ms. Each chunk must be visible within 2 s + network time.",
 		Assumptions: commonAssumptions,
 		RealStub:    coreRealStub,
 	},
@@ -124,21 +124,21 @@ var checks = map[string]*Check{
 	},
 	"C12": {
 		Legs:        []Leg{{World: "C12", Weight: 3}, {World: "C12", Race: true, Weight: 2}},
-		Probes:      []string{"concurrent_calls", "double_close_same_instant", "data_racing_close", "backend_closed_first"},
+		Probes:      []string{"concurrent_calls", "double_close_same_instant", "data_racing_close", "backend_closed_first", "odd_message_types"},
 		Rule:        "1..2 shim sessions and 2..10 data/poll/close calls with valid, unknown, malformed and empty arguments, most of them issued at the same simulated instant so that the scheduler interleaves them at the yield points inside the shim handlers and the connection (data vs close, close vs close, poll vs backend close); in a third of the runs the backend sends 0..14 messages and closes first. Every call must be answered with 200/400/408/500; calls after an answered close must get 400; crash monitor + race-detector leg.",
 		Assumptions: commonAssumptions,
 		RealStub:    coreRealStub,
 	},
 	"C13": {
 		Legs:        []Leg{{World: "C13", Weight: 1}},
-		Probes:      []string{"open_succeeded", "open_rejected", "non_shim_request"},
+		Probes:      []string{"open_succeeded", "open_rejected", "non_shim_request", "backend_redirects_handshake"},
 		Rule:        "1..6 concurrent shim open requests whose bodies come from a URL grammar (absolute, scheme-relative, path-only, opaque scheme:rest, empty, userinfo, IPv6 literals, odd ports, foreign and link-local hosts, control bytes) or are random byte strings, plus 0..3 requests on look-alike paths outside the shim prefix; closed-world SimNet records every address any goroutine of the agent's host dials. Input-dominated: the simulator's contribution is that no dial can escape observation.",
 		Assumptions: commonAssumptions,
 		RealStub:    coreRealStub,
 	},
 	"C10": {
 		Legs:        []Leg{{World: "C10", Weight: 3}, {World: "C10/lru", Weight: 1}, {World: "C10", Race: true, Weight: 2}, {World: "C10/lru", Race: true, Weight: 1}},
-		Probes:      []string{"session_issued", "cookies_restored", "concurrent_sessions", "lru_eviction"},
+		Probes:      []string{"session_issued", "cookies_restored", "concurrent_sessions", "lru_eviction", "late_response_after_eviction"},
 		Rule:        "1..4 (LRU leg: 3..6 with a window of 2) modelled browsers send 2..8 scripted requests over three hosts and four paths through real proxy and agent (-session-cookie-name) to a backend emitting generated Set-Cookie operations (set, overwrite, Path/Domain scoped, Max-Age, Secure/HttpOnly, delete, expired), with simulated gaps across expiry instants, then a burst of concurrent requests in all sessions plus two in one session. Reference: one independent net/http/cookiejar per modelled session on the same clock; values carry the session's tag so any foreign value is a leak.",
 		Assumptions: commonAssumptions,
 		RealStub:    coreRealStub,
